@@ -223,6 +223,43 @@ int _vnacal_new_check_all_frequency_ranges(const char *function,
 
 
 /*
+ * _vnacal_new_rollback_parameters: drop unknown parameters registered since
+ *   @vnp: pointer to vnacal_new_t structure
+ *   @anchor: value of vn_unknown_parameter_anchor before the registrations
+ *   @unknowns: value of vn_unknown_parameters before the registrations
+ *   @correlated: value of vn_correlated_parameters before the registrations
+ *
+ *   Used when vnacal_new_add_* fails after _vnacal_new_get_parameter
+ *   has already registered unknown parameters of the rejected standard.
+ */
+void _vnacal_new_rollback_parameters(vnacal_new_t *vnp,
+	vnacal_new_parameter_t **anchor, int unknowns, int correlated)
+{
+    vnacal_new_parameter_hash_t *vnphp = &vnp->vn_parameter_hash;
+    vnacal_new_parameter_t *vnprp;
+
+    while ((vnprp = *anchor) != NULL) {
+	int parameter = VNACAL_GET_PARAMETER_INDEX(vnprp->vnpr_parameter);
+	vnacal_new_parameter_t **pp;
+
+	*anchor = vnprp->vnpr_next_unknown;
+	pp = &vnphp->vnph_table[parameter % vnphp->vnph_allocation];
+	for (; *pp != NULL; pp = &(*pp)->vnpr_hash_next) {
+	    if (*pp == vnprp) {
+		*pp = vnprp->vnpr_hash_next;
+		--vnphp->vnph_count;
+		break;
+	    }
+	}
+	_vnacal_release_parameter(vnprp->vnpr_parameter);
+	free((void *)vnprp);
+    }
+    vnp->vn_unknown_parameter_anchor = anchor;
+    vnp->vn_unknown_parameters = unknowns;
+    vnp->vn_correlated_parameters = correlated;
+}
+
+/*
  * _vnacal_new_get_parameter: add/find parameter
  *   @function: name of user-called function
  *   @vnp: pointer to vnacal_new_t structure
